@@ -109,9 +109,25 @@ func propC12(r *Run) {
 			changes := map[string]*chg{}
 			admins := map[string]bool{}
 			aux0 := map[string]string{}
+			// a user whose record is upgradeable right now gets both a change and logins for sure
+			focus := ""
+			for _, u := range users {
+				if _, c, ok := w.fileOf(cfg.BaseDir, u); ok {
+					if rec, perr := ParseStrict(strings.SplitN(c, "\n", 2)[0]); perr == nil && uint(rec.ParamID) != cfg.Default && model[u].PW != "" {
+						focus = u
+						break
+					}
+				}
+			}
+			if focus != "" {
+				for i := 0; i < 2; i++ {
+					w.addClient([]*Call{{Kind: "authenticate", Via: "agent", Agent: a.idx, User: focus, PW: model[focus].PW}})
+				}
+				r.Count("probe:epilogue-with-upgradeable-user-login-and-change")
+			}
 			for _, u := range users {
 				admins[u], aux0[u] = model[u].Admin, model[u].Aux
-				if r.Choose("epi-change", 2) == 1 {
+				if u == focus || r.Choose("epi-change", 2) == 1 {
 					c := &Call{Kind: "update", Via: "agent", Agent: a.idx, User: u, PW: "epilogue-pw-of-" + u}
 					changes[u] = &chg{c, model[u].PW, c.PW}
 					w.addClient([]*Call{c})
@@ -122,7 +138,7 @@ func propC12(r *Run) {
 				nl += 10 + r.Choose("epi-storm-size", 12) // more requests than the queues hold
 				// password changes for users that do not exist fail, but occupy the update queue
 				// (which local upgrades share) while they wait
-				for g := 0; g < 8+r.Choose("epi-ghost-updates", 8); g++ {
+				for g, gN := 0, 8+r.Choose("epi-ghost-updates", 8); g < gN; g++ {
 					w.addClient([]*Call{{Kind: "update", Via: "agent", Agent: a.idx, User: fmt.Sprintf("ghost-%d", g), PW: "irrelevant"}})
 				}
 			}
@@ -138,8 +154,13 @@ func propC12(r *Run) {
 				}
 				w.addClient([]*Call{{Kind: "authenticate", Via: via, Agent: a.idx, User: u, PW: pw}})
 			}
+			if r.Choose("epi-fs-yields", 2) == 0 {
+				w.fsYields() // whoever rewrites a record can be interleaved with a password change at single file operations
+			}
 			w.runLoop(loopOpts{maxSteps: 2000, wClient: 3, wLoop: 3})
-			if wedge := w.drain(drainExtra); wedge != "" {
+			wedge := w.drain(drainExtra)
+			w.fs.Gate = nil
+			if wedge != "" {
 				r.FailOther("C10", wedgeSignature(wedge), "%s", wedge)
 				return
 			}
